@@ -15,6 +15,7 @@ RULE = ("plans: 1-6 hostile peers (mutated HTTP/SOCKS4/SOCKS5/auth messages: fli
         "streams from a real quinn client; valid prefix then disconnect or stall) and hostile upstreams (bad status lines, oversized/odd headers, non-numeric Session-Id, "
         "bogus SOCKS replies, early close) behind http/socks/quic connectors; canary tunnels on every listener during and after; non-trivial = at least one hostile "
         "message was consumed by a decoder (the proxy read >= 1 byte or datagram of it); distinct = event-order hash")
+RULE_MORE = 'Later additions: valid multi-byte text straddling arbitrary byte offsets; accept(2) errors and a descriptor limit; tiny QUIC datagram limits; floods of junk datagrams; well-formed upstream replies that announce absurd lengths (Content-Length, Session-Id).'
 LEVEL_TEXT = ("seeded exploration of the real decoders in place (listeners, connectors, frame readers, QUIC datagram thread): the shipped profile aborts on any panic, so the "
               "shadow build unwinds and a panic hook records message and location; any panic, a dead process, or a canary that is not served within 5 virtual s is a violation")
 LEVEL_NOTE = "hostile input length is capped per plan (<= 70 KB), so unbounded buffering is not judged; the TPROXY listener is only reached in TCP mode (no peer-controlled parsing there), its UDP mode (recvmsg control messages) is not simulated; component-level volume for the fragment decoder is in C11"
